@@ -83,7 +83,8 @@ def slices(P, R):
                     R.ob('C05.TAB.1', ok, s, 'text slice %s follows byte tests fixing indices 0..%d (found %s)' % (sx(a), k - 1, sorted(bytes_fixed)), key='slice:bytes:%s' % callee)
                     if ok:
                         word = ''.join(chr(c) for i, c in sorted(bytes_fixed) if i < k)
-                        R.ob('C05.TAB.1', word == 'OK ' and holds.FieldWrites(P).fields(ts[0]) & {'account'} if ts else False, s,
+                        wr_keys = set(account_writers(P, Remap(R, {})))
+                        R.ob('C05.TAB.1', (word == 'OK ' and bool(holds.FieldWrites(P).fields(ts[0]) & {'account'} or ts[0].key in wr_keys)) if ts else False, s,
                              'the slice after %r goes to the account setter (callee %s)' % (word, callee), key='emitter:OK')
     R.floor('C05.TAB.1', 7, 'text slices of replies')
 
@@ -122,6 +123,9 @@ def account_writers(P, R):
                     # assignment *through* the alias (not re-pointing it)
                     hit = True
                 if lv.get('k') == 'un' and lv['op'] == '*' and is_var(lv['e']) and lv['e']['name'] in al:
+                    hit = True
+                # *p++ = ... through an alias
+                if lv.get('k') == 'un' and lv['op'] == '*' and isinstance(lv.get('e'), dict) and lv['e'].get('k') == 'un' and lv['e'].get('op') in ('++', '--') and is_var(lv['e'].get('e')) and lv['e']['e']['name'] in al:
                     hit = True
             if hit:
                 writers.setdefault(f.key, []).append(s)
@@ -176,6 +180,69 @@ def account_copy(P, R, writers):
         for s in copies:
             vs = vars_in(s.ev['lhs']['index'])
             iv = sorted(vs)[0] if vs else None
+        if iv is None and not [c for c in f.calls('memcpy') if is_field(c.ev['args'][0], 'account')]:
+            # pointer form: dst = account; limit = account + K; while (*src != ' ' && *src && dst < limit) *dst++ = *src++;
+            # then either *dst = 0 or a zero fill from dst to the end of the field
+            al = account_aliases(f)
+
+            def ptr_of(lhs):
+                e = (lhs or {}).get('e') if (lhs or {}).get('k') == 'un' and lhs.get('op') == '*' else None
+                if isinstance(e, dict) and e.get('k') == 'un' and e.get('op') == '++':
+                    e = e.get('e')
+                return e['name'] if is_var(e) else None
+            pcs = [s for s in f.stores() if s.ev['k'] == 'store' and ptr_of(s.ev.get('lhs')) in al and const_of(s.ev.get('rhs')) is None]
+            if pcs:
+                s = pcs[0]
+                dstv = ptr_of(s.ev['lhs'])
+                gs = f.guards(s.bid)
+
+                def from_src(name):
+                    if name in srcp:
+                        return True
+                    for d in f.local_defs(name):
+                        val = d.ev.get('init') if d.ev['k'] == 'decl' else (d.ev.get('rhs') if d.ev.get('op') == '=' else None)
+                        if isinstance(val, dict) and any(is_var(y) and y['name'] in srcp for y in walk(val)):
+                            return True
+                    return False
+
+                def src_byte(e):
+                    return isinstance(e, dict) and e.get('k') in ('un', 'idx') and any(is_var(x) and from_src(x['name']) for x in walk(e))
+                stop_sp = any(src_byte(g[0]) and g[1] == '!=' and const_of(g[2]) == 32 for g in gs)
+                stop_nul = any(src_byte(g[0]) and g[1] == '!=' and const_of(g[2]) == 0 for g in gs)
+                K = None
+                limv = None
+                for g in gs:
+                    if is_var(g[0], dstv) and g[1] == '<' and is_var(g[2]) and f.single_def(g[2]['name']):
+                        d = f.single_def(g[2]['name'])[1]
+                        if isinstance(d, dict) and d.get('k') == 'bin' and d.get('op') == '+' and is_field(d.get('l'), 'account') and isinstance(const_of(d.get('r')), int):
+                            K, limv = const_of(d['r']), g[2]['name']
+                R.ob('C05.BND.1', stop_sp, s, 'the account copy stops at the first space', key='copy:space')
+                R.ob('C05.BND.1', stop_nul, s, 'the account copy stops at the end of the text', key='copy:nul')
+                R.ob('C05.BND.1', K is not None and ext is not None and K <= ext - 1, s, 'the account copy stops at the length limit (pointer < field + %s, extent %s)' % (K, ext), key='copy:limit')
+                # the destination pointer starts at the field and only moves in the guarded copy
+                d0 = f.single_def(dstv) if f.single_def(dstv) else None
+                moves = [t for t in f.sites() if any(x.get('k') == 'un' and x.get('op') in ('++', '--') and is_var(x.get('e'), dstv) for ex in rules.event_exprs(t.ev) for x in walk(ex)) or
+                         (t.ev['k'] == 'store' and is_var(t.ev.get('lhs'), dstv))]
+                starts_ok = all(t.bid == s.bid or (t.ev['k'] in ('decl', 'store') and is_field((t.ev.get('init') if t.ev['k'] == 'decl' else t.ev.get('rhs')) or {}, 'account')) for t in moves)
+
+                def terminates(t):
+                    ev = t.ev
+                    if ev['k'] == 'store' and ptr_of(ev.get('lhs')) == dstv and const_of(ev.get('rhs')) == 0 and (ev['lhs'].get('e') or {}).get('k') == 'var':
+                        return True
+                    if ev['k'] == 'call' and ev.get('callee') == 'memset' and len(ev['args']) == 3 and is_var(ev['args'][0], dstv) and const_of(ev['args'][1]) == 0:
+                        n = ev['args'][2]
+                        # (limit + J) - dst with K + J <= extent
+                        if isinstance(n, dict) and n.get('k') == 'bin' and n.get('op') == '-' and is_var(n.get('r'), dstv):
+                            a = n['l']
+                            J = 0
+                            if isinstance(a, dict) and a.get('k') == 'bin' and a.get('op') == '+' and isinstance(const_of(a.get('r')), int):
+                                J, a = const_of(a['r']), a['l']
+                            if is_var(a, limv) and K is not None and ext is not None and K + J <= ext and J >= 1:
+                                return True
+                    return False
+                p = f.path_avoiding(None, terminates, from_entry=True)
+                R.ob('C05.BND.1', starts_ok and p is None, f, 'the stored account is NUL-terminated where the copy stopped (or the field is cleared to its end from there) on every path', key='copy:terminated')
+                continue
         if iv is None:
             # measure-then-copy form: a counter stepped only while the text goes on, memcpy of that many bytes, zero fill
             # of the rest of the field
